@@ -360,7 +360,8 @@ def run(tier):
                       for c in core.chunks(shapes[::-1], core.NPROC * 4)], into=t)
             bounds.append({"part": "shapes", "nodes": [lo, hi], "shapes": len(shapes), "classes": kinds, "triples": triples})
         shape_states = t.c["states"]
-        plan = [("mixin", 3, True), ("light", 3, True), ("node", 3, True), ("mixin", 4, tier == "thorough"), ("light", 4, tier == "thorough")]
+        plan = [("mixin", 3, True), ("light", 3, True), ("node", 3, True), ("mixin", 4, tier == "thorough"), ("light", 4, tier == "thorough"),
+                ("symmix", 4, False)]
         if tier == "thorough":
             plan.append(("mixin", 5, False))
         for kind, n, depth2 in plan:
